@@ -243,6 +243,20 @@ func TestEnumerated(t *testing.T) {
 		send(cmd.n, cmd.k, 0, cmd.c, map[string]uint64{})
 	}
 	ev.Label("enum:bodyless")
+	// Get DCMI Sensor Info: every entity instance byte (00h = all instances, with
+	// the instance start; 01h..FFh = that instance, instance start 0)
+	for inst := 0; inst <= 255; inst++ {
+		for _, start := range []int{0, 9, 255} {
+			wantStart := start
+			if inst != 0 {
+				wantStart = 0
+			}
+			send("Get DCMI Sensor Info", k(ref.NetFnGroup, ref.CmdDCMISensorInfo), 0,
+				&dcmi.GetDCMISensorInfoCmd{Req: dcmi.GetDCMISensorInfoReq{Type: ipmi.SensorType(inst ^ 0x55), Entity: ipmi.EntityID(255 - inst), Instance: ipmi.EntityInstance(inst), InstanceStart: uint8(start)}},
+				map[string]uint64{"type": uint64(byte(inst ^ 0x55)), "entity": uint64(255 - inst), "instance": uint64(inst), "start": uint64(wantStart)})
+		}
+	}
+	ev.Label("enum:dcmi-entity-instance")
 }
 
 // TestHandshakePayloads observes Open Session Request, RAKP1 and RAKP3 for
@@ -503,7 +517,7 @@ func TestConnectionHistory(t *testing.T) {
 }
 
 func TestCoverage(t *testing.T) {
-	need := []string{"history:reopen-after-in-session-traffic", "history:retransmissions-checked", "long-username-refused", "enum:cipher-suites", "enum:dcmi", "handshake:auth1", "handshake:auth2", "handshake:auth3"}
+	need := []string{"history:reopen-after-in-session-traffic", "history:retransmissions-checked", "long-username-refused", "enum:cipher-suites", "enum:dcmi", "enum:dcmi-entity-instance", "handshake:auth1", "handshake:auth2", "handshake:auth3"}
 	for _, e := range hx.Catalogue() {
 		_ = e
 	}
